@@ -15,7 +15,7 @@ from ..universe import terms as T
 from . import _eval as E
 
 ID = "C05"
-SETS = {"quick": ["U1L", "P:P1q", "P:P3q", "P:P4q", "P:P6q"], "thorough": ["U1L_all", "U2K", "P:P0", "P:P1", "P:P3", "P:P4", "P:P6"]}
+SETS = {"quick": ["U1L", "P:P1q", "P:P3q", "P:P4q", "P:P6q", "P:P7q"], "thorough": ["U1L_all", "U2K", "P:P0", "P:P1", "P:P3", "P:P4", "P:P6", "P:P7"]}
 STEP = 30
 NMEM = 4  # member inputs taken from the first NMEM values of each member
 REJECT_POOL = [lambda: object(), lambda: {"zz_no_such": object()}, lambda: "\x00not-a-value\x00", lambda: [[["deep"]]], lambda: 3.25j]
